@@ -157,7 +157,11 @@ class SbxRun:
         MONITOR.begin(digest=self.cfg.get('digest', True), sites=self.cfg.get('sites', False))
         self.ref = RefExecutor(self.files, self.main) if self.cfg.get('ref') else None
         self.sched = None
-        if self.cfg.get('sched') or any(o.get('threaded') for o in self.spec['ops']):
+        if self.cfg.get('sandbox_threaded'):
+            # the instructor switched the sandbox itself to threaded mode: every execution AND every nested import
+            # of a student file gets its own thread (all of them finish far inside the limit here)
+            self.sandbox.threaded = True
+        if self.cfg.get('sched') or self.cfg.get('sandbox_threaded') or any(o.get('threaded') for o in self.spec['ops']):
             import random
             from sim.sched import Scheduler
             sc = self.cfg.get('sched') or {}
